@@ -405,13 +405,26 @@ def _recursion_children(repo: Repo, f: FuncInfo, p) -> set:
     """the child positions the tree walk descends into: self-recursive calls of the function, or of a private helper it hands the node to
     (a recursive generator that yields the leaves, a recursive worker) -- recursion cannot be analysed in place, so the helper is read
     on its own"""
+    def every_child(fi: FuncInfo, pv, c: ast.Call) -> bool:
+        """the call descends into the element of a walk over `.children` that visits every child: the argument is the element of the
+        loop it sits in, and no turn of that loop can end the walk (break / return) before the remaining children are reached"""
+        tr = pv.trace(c.args[0])
+        if not tr or not all(len(x) >= 3 and x[-2:] == ("attr:children", "elem") for x in tr):
+            return False
+        loops = [lp for lp in ast.walk(fi.node) if isinstance(lp, ast.For) and any(x is c for x in ast.walk(lp))]
+        if not loops:
+            return True     # a comprehension / generator over the children: every element is visited
+        G = L.Guards(fi, lambda e: None)
+        return not any(L.leaves_loop_early(G, {}, lp) for lp in loops)
+
     def own(fi: FuncInfo, pv) -> set:
         out = set()
         for c in L.calls_in(fi.node):
-            if isinstance(c.func, ast.Name) and c.func.id == fi.name and c.args:
+            if (isinstance(c.func, ast.Name) and c.func.id == fi.name and c.args) or \
+                    (isinstance(c.func, ast.Attribute) and c.func.attr == fi.name and fi.cls and c.args):
                 out |= _child_indices(pv.trace(c.args[0]))
-            elif isinstance(c.func, ast.Attribute) and c.func.attr == fi.name and fi.cls and c.args:
-                out |= _child_indices(pv.trace(c.args[0]))
+                if every_child(fi, pv, c):
+                    out |= {"0", "1"}
         return out
 
     idx = own(f, p)
